@@ -84,10 +84,14 @@ func genCase(t *rapid.T) Case {
 	newest := [nClients]int{-1, -1}
 	n := rapid.IntRange(4, 16).Draw(t, "nops")
 	ticks := 0
-	kinds := []string{"connect", "connect", "connect", "hb", "close", "close", "tick", "tick", "tick"}
+	kinds := []string{"connect", "connect", "connect", "connect", "hb", "close", "close", "close", "tick", "tick", "tick", "streak"}
+	streaks := 0
 	for i := 0; i < n; i++ {
 		k := rapid.SampledFrom(kinds).Draw(t, "kind")
-		if k == "tick" && (!short || ticks >= 7) {
+		if k == "streak" && (!short || streaks >= 1) {
+			k = "close"
+		}
+		if k == "tick" && (!short || ticks >= 5) {
 			k = "connect"
 		}
 		var openIdx []int
@@ -137,6 +141,12 @@ func genCase(t *rapid.T) Case {
 			}
 			conns[j].open = false
 			c.Ops = append(c.Ops, Op{Kind: "close", Conn: j})
+		case "streak":
+			// a session that outlives the registration lifetime: 4-5 pauses of ttl/3, every connected client heartbeating
+			streaks++
+			for j := rapid.IntRange(4, 5).Draw(t, "streakLen"); j > 0; j-- {
+				c.Ops = append(c.Ops, Op{Kind: "tick", HB: append([]int(nil), hbable...), FF: rapid.IntRange(0, 3).Draw(t, "ff") > 0})
+			}
 		case "tick":
 			ticks++
 			op := Op{Kind: "tick", FF: rapid.IntRange(0, 3).Draw(t, "ff") > 0}
@@ -648,7 +658,7 @@ func check(t vkit.TB, c Case) {
 
 // TestClusterLookup is the generated search.
 func TestClusterLookup(t *testing.T) {
-	vkit.Check(t, 1200, 16000, func(t *rapid.T) {
+	vkit.Check(t, 800, 10000, func(t *rapid.T) {
 		check(t, genCase(t))
 	})
 }
